@@ -109,18 +109,17 @@ def _consumer(repo, rep):
                       where=where)
     # plumbing chain
     comp = repo.func("chameleon.template.BaseTemplate._compile")
-    t = " ".join(src(s) for s in ast.walk(comp.node)
-                 if isinstance(s, ast.stmt))
+    t = L.text(comp.node)
     rep.check("strict=self.strict" in t, "R19.1", comp.qualname,
               "the template's flag is handed to the compiler",
               construct="plumb-compile", where=L.where(comp))
     ci = repo.func(COMP + "Compiler.__init__")
-    t = " ".join(src(s) for s in ast.walk(ci.node) if isinstance(s, ast.stmt))
+    t = L.text(ci.node)
     rep.check("strict=strict" in t and "ExpressionTransform(" in t, "R19.1",
               ci.qualname, "the compiler hands it to the expression "
               "transformer", construct="plumb-compiler", where=L.where(ci))
     ei = repo.func(ET + "__init__")
-    t = " ".join(src(s) for s in ei.node.body)
+    t = L.text(ei.node, body_only=True)
     rep.check("self.strict = strict" in t, "R19.1", ei.qualname,
               "the transformer stores it", construct="plumb-store",
               where=L.where(ei))
@@ -141,7 +140,7 @@ def _consumer(repo, rep):
               "must not be dropped", construct="plumb-load", where=L.where(pf),
               detail=str([src(x)[:80] for x in lc]))
     tl = repo.func("chameleon.loader.TemplateLoader.load")
-    t2 = " ".join(src(x) for x in ast.walk(tl.node) if isinstance(x, ast.stmt))
+    t2 = L.text(tl.node)
     rep.check("**self.kwargs" in t2, "R19.1", tl.qualname, "the loader "
               "passes the stored options on to every template it creates",
               construct="plumb-loader", where=L.where(tl))
@@ -205,7 +204,7 @@ def _deferred(repo, rep):
               "expression's site, so the error is raised iff rendering "
               "reaches it", construct="deferred-shape", where=wh,
               detail=str(kinds))
-    t = " ".join(src(s) for s in ast.walk(f.node) if isinstance(s, ast.stmt))
+    t = L.text(f.node)
     rep.check("p = pickle.dumps(exc, -1)" in t, "R19.2", site,
               "the error that strict mode would raise is the one pickled",
               construct="dumps", where=wh)
@@ -242,7 +241,7 @@ def _through(repo, rep):
               "expression engine directly (bypassing the ExpressionError "
               "handler)", construct="bypass", detail=str(direct))
     ci = repo.func(COMP + "Compiler.__init__")
-    t = " ".join(src(s) for s in ast.walk(ci.node) if isinstance(s, ast.stmt))
+    t = L.text(ci.node)
     rep.check("self._engine = ExpressionTransform(" in t, "R19.3",
               ci.qualname, "self._engine is the expression transformer",
               construct="engine-is-transformer", where=L.where(ci))
